@@ -88,7 +88,8 @@ def run_crosshair(job):
         out = 'timeout'
     confirmed = out.count('Confirmed over all paths')
     fails = []
-    for m in re.finditer(r"error: .*? when calling _kernel_agrees(?:_3)?\\((.*?)\\)(?: \\(which|$)", out, re.M):
+    pat = 'error: .*? when calling _kernel_agrees(?:_3)?' + chr(92) + '((.*?)' + chr(92) + ')(?: ' + chr(92) + '(which|$)'
+    for m in re.finditer(pat, out, re.M):
         try:
             args = eval('(' + m.group(1) + ',)', {'__builtins__': {}}, {})
             if len(args) != 2:
